@@ -89,8 +89,10 @@ func (f *atomicFile) Commit() error {
 		return err
 	}
 	// rename can't overwrite on windows
-	if err := os.Remove(f.name); err != nil && !os.IsNotExist(err) {
-		return err
+	if runtime.GOOS == "windows" {
+		if err := os.Remove(f.name); err != nil && !os.IsNotExist(err) {
+			return err
+		}
 	}
 	if err := os.Rename(f.File.Name(), f.name); err != nil {
 		return err
